@@ -180,6 +180,7 @@ type histCfg struct {
 	pairMode bool
 	rebuild  bool
 	big      bool // the store also holds 2300 unrelated signatures: RebuildIndexes works in several chunks
+	confirm  bool // a re-execution that tries to reproduce a non-linearizable history
 }
 
 var ids = []string{"X", "Y"}
@@ -388,7 +389,7 @@ func settingsWriters(res *evid.Result, idx int) {
 			db.SetEntropyTolerance([]float64{2, 3}[i%2])
 		}
 	}()
-	n := evid.Pick(4000, 40000)
+	n := evid.Pick(4000, 20000)
 	for i := 0; i < n; i++ {
 		db.SetThreshold(0.9)
 		rs, err := db.ScanTopology(probe, "f")
@@ -767,7 +768,31 @@ func checkLinearizable(res *evid.Result, cfg histCfg, all []rec) {
 		case porcupine.Illegal:
 			res.Count("porcupine_illegal", 1)
 			sort.Slice(used, func(i, j int) bool { return used[i].Call < used[j].Call })
-			res.Violate("not-linearizable/pebble", fmt.Sprintf("history %d: operations on signature %q are not linearizable against the register model (rebuild in history: %v)", cfg.idx, id, cfg.rebuild), map[string]any{"cfg": fmt.Sprintf("%+v", cfg), "ops": used})
+			if cfg.confirm {
+				continue // counted; the caller decides
+			}
+			// A verdict needs a witness that the code produces again: the same configuration
+			// (same clients, same operations; the schedule is whatever it is) is executed up
+			// to 25 more times. Every seeded change of this property is re-found within the
+			// first few; a history that never comes back is kept as a sample and counted as
+			// inconclusive (section 7 of DESIGN.md).
+			again := 0
+			for k := 0; k < 25 && again == 0; k++ {
+				tmp := evid.New("C11")
+				c2 := cfg
+				c2.confirm = true
+				pebbleHistory(tmp, c2)
+				again += tmp.GetCount("porcupine_illegal")
+			}
+			w := map[string]any{"cfg": fmt.Sprintf("%+v", cfg), "ops": used}
+			if again > 0 {
+				res.Violate("not-linearizable/pebble", fmt.Sprintf("history %d: operations on signature %q are not linearizable against the register model (rebuild in history: %v); re-executions of the same configuration were not linearizable either", cfg.idx, id, cfg.rebuild), w)
+			} else {
+				res.Inconcl(1)
+				res.Count("nonlinearizable_history_not_reproduced_in_25_reexecutions", 1)
+				res.Sample(map[string]any{"unreproduced_nonlinearizable_history": w})
+				res.Logf("C11: history %d (%q) was not linearizable once and linearizable in 25 re-executions: inconclusive\n", cfg.idx, id)
+			}
 		}
 	}
 }
@@ -984,9 +1009,21 @@ func child() {
 	nj := evid.Pick(12, 200)
 	var wg sync.WaitGroup
 	sem := make(chan struct{}, 4) // few histories at a time: each one is itself a crowd of goroutines
-	for i := 0; i < nh; i++ {
+	only, repeat := -1, 1
+	if v := os.Getenv("C11_ONLY"); v != "" {
+		fmt.Sscan(v, &only)
+		fmt.Sscan(os.Getenv("C11_REPEAT"), &repeat)
+	}
+	for ii := 0; ii < nh*repeat; ii++ {
+		i := ii % nh
+		if only >= 0 {
+			i = only
+			if ii >= repeat {
+				break
+			}
+		}
 		r := evid.Rand(int64(11000 + i))
-		cfg := histCfg{idx: i, writers: 2 + r.Intn(3), readers: 2 + r.Intn(7), opsEach: 12 + r.Intn(25), pairMode: i%6 == 5, rebuild: i%4 == 1 || i%8 == 7, big: i%8 == 7}
+		cfg := histCfg{idx: i, writers: 2 + r.Intn(3), readers: 2 + r.Intn(7), opsEach: 12 + r.Intn(25), pairMode: i%6 == 5, rebuild: i%4 == 1 || i%8 == 7, big: i%8 == 7 && i < 320}
 		wg.Add(1)
 		sem <- struct{}{}
 		go func() {
